@@ -67,8 +67,8 @@ func coreC05(tier string) []RunSpec {
 	}
 	// a swap of the melt's inputs racing the melt request, for each pay answer
 	for pay := 0; pay < 4; pay++ {
-		for k := 0; k < 6; k++ {
-			out = append(out, RunSpec{Profile: "core:race", Params: map[string]int{"race": 1, "pay": pay, "k": k, "n": 0}})
+		for k := 0; k < 12; k++ {
+			out = append(out, RunSpec{Profile: "core:race", Params: map[string]int{"race": 1, "pay": pay, "k": k, "n": 0, "racer": k % 3}})
 		}
 	}
 	// one storage error inside the melt call or inside the poll that would adopt the outcome
@@ -604,9 +604,37 @@ func c05Race(rc *RunCtx, m *MW, inv *LNInvoice, amt uint64, mpp bool, payMode st
 	fee := m.feeFor("A", ins)
 	outs := W.NewOutputs(Split(SumH(ins)-fee), ks.ID)
 	var meltResp, swapResp *Resp
+	racer := rc.P("racer", rc.T.Choose("race.racer", 3)) % 3
+	if racer != 0 {
+		// polls may reach the backend before it knows of the payment: only a truthful backend makes
+		// sense then (a scripted "succeeded" for a payment that does not exist yet would be a lie)
+		if sc := W.LN.Scripts[inv.Hash]; sc != nil {
+			sc.Status = nil
+		}
+	}
 	rc.S.BeginEpisode()
 	rc.S.Go("melt", W.Ext, true, func() { meltResp = m.User.Melt("A", q.ID, ins) })
-	rc.S.Go("raceswap", W.Ext, true, func() { _, swapResp = m.Atk.Swap("A", ins, outs) })
+	switch racer {
+	case 0:
+		rc.S.Go("raceswap", W.Ext, true, func() { _, swapResp = m.Atk.Swap("A", ins, outs) })
+	default:
+		// state checks / quote polls landing while the melt request is being processed (also in the
+		// window after the quote went PENDING and before the backend knows of the payment: "not
+		// found" at that instant says nothing about the payment that is about to be made)
+		swapResp = &Resp{Status: 400}
+		rc.S.Go("racepoll", W.Ext, true, func() {
+			a := NewActor(W, "racepoll")
+			for i := 0; i < 3; i++ {
+				if racer == 1 {
+					a.CheckState("A", []string{ins[0].Y()})
+				} else {
+					a.PollMeltQuote("A", q.ID)
+				}
+				rc.S.Yield(W.Ext, "ext", "between-polls")
+			}
+		})
+		rc.S.Probe("c05_race_poll_during_melt")
+	}
 	rc.S.Drive(false)
 	rc.S.Probe("c05_race_episode")
 	if meltResp == nil || swapResp == nil {
